@@ -73,6 +73,24 @@ def scenarios(tier):
                 name = "halt:%s-L%d-%s" % (shape, L, setup)
                 sc[name] = Scenario(name, mkcfg(sessions, markets=markets, agents=ags, events=ev), observer=make_running_observer(),
                                     meta=dict(halt_rules=rules))
+                if L <= 2 and len(sess) == 2 and setup in ("one_market", "two_markets_target0"):
+                    # the same run with the rule listed under the LAST session instead of the first, and with other
+                    # events (a price limit rule too wide to clip, a shock of the other market's fundamental) listed
+                    # before / after it
+                    import copy
+                    for variant in ("listed_last", "with_other_events_first", "with_other_events_last"):
+                        ev2 = dict(ev)
+                        s2 = copy.deepcopy(sessions)
+                        if variant == "listed_last":
+                            del s2[0]["events"]
+                            s2[-1]["events"] = sorted(ev)
+                        else:
+                            ev2["PL"] = {"class": "PriceLimitRule", "targetMarkets": [m["name"] for m in markets], "triggerChangeRate": 0.9375}
+                            ev2["FS"] = {"class": "FundamentalPriceShock", "target": markets[-1]["name"], "triggerTime": 1, "priceChangeRate": 0.5, "shockTimeLength": 2}
+                            s2[0]["events"] = (["PL", "FS"] + sorted(ev)) if variant.endswith("first") else (sorted(ev) + ["PL", "FS"])
+                        n2 = "%s-%s" % (name, variant)
+                        sc[n2] = Scenario(n2, mkcfg(s2, markets=markets, agents=ags, events=ev2), observer=make_running_observer(),
+                                          meta=dict(halt_rules=rules))
     # multi-fill sweep scenarios: one round with two fills crosses the SECOND line at once (deviation 2 x rate);
     # after the resume a single fill at the same deviation must halt again
     for L in (1, 2):
